@@ -548,6 +548,11 @@ def extract_block(fdef, spec, params):
                 for k, st in enumerate(stmts):
                     if isinstance(st, ast.stmt) and _norm(ast.unparse(st).splitlines()[0]) == want:
                         hits.append((stmts, k))
+    # several statements may start with the same line (e.g. the same test twice): `nth` picks one of `of` matches, in source order
+    if "nth" in spec:
+        if len(hits) != spec["of"]:
+            raise StaleContract(f"block anchor {spec['first']!r}: {len(hits)} matches in {fdef.name}, contract expects {spec['of']}")
+        hits = [sorted(hits, key=lambda h: h[0][h[1]].lineno)[spec["nth"]]]
     if len(hits) != 1:
         raise StaleContract(f"block anchor {spec['first']!r}: {len(hits)} matches in {fdef.name}")
     stmts, k = hits[0]
